@@ -1,4 +1,4 @@
-//@unit U15 props=C01,C02,C03,C06,C08,C09,C12 rlimit=100 RenetClient glue: process_packet, send_message, receive_message (renet/src/remote_connection.rs)
+//@unit U15 props=C01,C02,C03,C06,C08,C09,C12,C15 rlimit=100 RenetClient glue: process_packet, send_message, receive_message (renet/src/remote_connection.rs)
 #![feature(allocator_api)]
 #![allow(unused_imports, dead_code, unused_variables, unused_mut)]
 use vstd::prelude::*;
@@ -365,7 +365,7 @@ impl RenetClient {
                     proof {
                         let na1 = new_acks@;
                         assert(rv[k3] == (rs[k3].start, rs[k3].end));
-                        assert forall|j: int| 0 <= j < na1.len() implies s1.sent_packets@.contains_key(#[trigger] na1[j]) && Self::in_some_range(rv, na1[j]) by {   // @C01,C02,C08 process_packet.what_the_lookup_collects_lies_inside_the_received_range
+                        assert forall|j: int| 0 <= j < na1.len() implies s1.sent_packets@.contains_key(#[trigger] na1[j]) && Self::in_some_range(rv, na1[j]) by {   // @C01,C02,C08,C15 process_packet.what_the_lookup_collects_lies_inside_the_received_range
                             if j < na0.len() { assert(na1.subrange(0, na0.len() as int)[j] == na1[j]); }
                         }
                         assert forall|a: int, b: int| 0 <= a < b < na1.len() implies na1[a] < na1[b] by {
